@@ -80,6 +80,26 @@ def make_input(rng: random.Random, n_refs: int = 2, n_qry: int = 8, ref_labels=(
             b, _ = gen.cut_query(rng, ref2["bp"], b0, b0 + w1, sigma=100)
             gap = rng.randint(3000, 15000)
             coords = a + [a[-1] + gap + v for v in b]
+        elif kind == "outscored":
+            # a short clean part A, then a longer part B from elsewhere of which the molecule shows only every other
+            # reference label: B's seed peak is the lower one (the reference vector carries twice the labels), its
+            # alignment the better one (more pairs). With -p 1 the first pass takes A and the SECOND pass finds the better
+            # alignment; the two cannot be joined (another reference, or the other strand of the same one)
+            wa = rng.randint(11, 14)
+            w0 = rng.randint(4, n - wa - 4)
+            a, _ = gen.cut_query(rng, xs, w0, w0 + wa, sigma=30)
+            others = [r for r in refs if r is not ref and len(r["bp"]) >= 40]
+            ref2 = rng.choice(others) if others else ref
+            m = len(ref2["bp"])
+            nb = max(8, min(rng.randint(18, 22), (m - 8) // 2))
+            b0 = rng.randint(4, m - 2 * nb - 3)
+            bwin = ref2["bp"][b0:b0 + 2 * nb - 1:2]
+            b = [v - bwin[0] + int(rng.gauss(0, 30)) for v in bwin]
+            b = sorted(b)
+            if ref2 is ref:
+                b = [v - min(gen.mirror_query(b)) for v in gen.mirror_query(b)]
+            gap = rng.randint(6000, 12000)
+            coords = a + [a[-1] + gap + v - b[0] for v in b]
         elif kind == "swappedindel":
             # "B A1 A2" on an "A1 A2 B" reference: the two windows in the opposite order on the molecule, and the first
             # window (second on the molecule) split in two by a 2-4 kb indel: the alignment next to the junction has two
